@@ -298,6 +298,12 @@ impl Coverage {
 pub fn finish(ctx: &Ctx, cov: Coverage) -> ! {
     let known = load_known_findings(&ctx.id);
     let map = std::mem::take(&mut *ctx.collector.inner.lock().unwrap());
+    // debugging aid: ZV_DUMP=<file> lists every kept violation (class, key, detail), one JSON object per line
+    if let Ok(p) = std::env::var("ZV_DUMP") {
+        let mut out = String::new();
+        for (class, agg) in &map { for v in &agg.examples { out += &json!({"class": class, "key": v.key, "detail": v.detail}).to_string(); out.push('\n'); } }
+        let _ = std::fs::write(p, out);
+    }
     let mut known_hits: BTreeMap<String, (u64, String)> = BTreeMap::new();
     let mut new_classes: Vec<(String, u64, Violation)> = vec![];
     let mut total = 0u64;
